@@ -186,6 +186,23 @@ def run_enum(shard: dict, res: Res) -> None:
                     for v in VALUES:
                         stmt = render(m, shape, suffix, vtext_of(v), case)
                         judge(res, supported, m, shape, suffix, v, stmt, f"*=0x008000\n{stmt}\n", key_of(m, shape, suffix, v), True)
+        # an instruction's bytes do not depend on the statements before it (no implicit register-width state)
+        if (m, "imm") in isa.MATRIX:
+            for prefix, pbytes in (("rep #0x20", "c220"), ("rep #0x10", "c210"), ("rep #0x30", "c230"), ("sep #0x30", "e230"), ("rep #0x30\nsep #0x20", "c230e220")):
+                for suffix in ("", "b", "w"):
+                    for v in (0x10, 0xFF, 0x1234):
+                        stmt = render(m, "imm", suffix, vtext_of(v), "lower")
+                        width = suffix or isa.natural_width(v)
+                        own = isa.encode(m, "imm", width, v)
+                        r2 = assemble(f"*=0x008000\n{prefix}\n{stmt}\n")
+                        res.evals += 1
+                        res.count("context_cases")
+                        if r2.ok:
+                            got = b"".join(b for _, b in r2.blocks)
+                            res.distinct_count += 1
+                            if own is None or got != bytes.fromhex(pbytes) + own:
+                                res.violate("context-dependent-encoding", f"`{stmt}` after `{prefix}` assembled to {got[len(pbytes) // 2:].hex()}, the ISA says {(own or b'').hex() or 'undefined'}",
+                                            {"m": m, "shape": "imm", "suffix": suffix, "value": v, "stmt": stmt, "src": f"*=0x008000\n{prefix}\n{stmt}\n"})
         # an operand that merely starts with a parenthesised term is still a plain (direct / immediate) operand
         for shape in ("dir", "dir_x", "dir_y", "imm"):
             for suffix in ("", "b", "w"):
@@ -286,6 +303,14 @@ def run_shard(shard: dict) -> Res:
 
 def replay(w: dict) -> Res:
     res = Res()
+    if w["src"].count("\n") > 2 and ":=" not in w["src"]:
+        r2 = assemble(w["src"])
+        res.case(w["src"], True)
+        own = isa.encode(w["m"], "imm", w["suffix"] or isa.natural_width(w["value"]), w["value"])
+        got = b"".join(b for _, b in r2.blocks) if r2.ok else b""
+        if r2.ok and (own is None or not got.endswith(own) or len(got) != len(own) + 2 * (w["src"].count("rep") + w["src"].count("sep"))):
+            res.violate("context-dependent-encoding", f"`{w['stmt']}` in context assembled to {got.hex()}", w)
+        return res
     key = key_of(w["m"], w["shape"], w["suffix"], w["value"]) if "PRELUDE" not in w and ":=" not in w["src"] else None
     judge(res, load_supported(), w["m"], w["shape"], w["suffix"], w["value"], w["stmt"], w["src"], key, True)
     return res
